@@ -14,7 +14,11 @@
                                      "us"  statement that uses the nearest enclosing-scope
                                            @shared/@exclusive variable (only inside @inner)
      d  depth >= 1 (children of the kernel body have depth 1)
-     h  loop-header variant for "fo"/"fi" (GoodHdrs \cup BadHdrs), "-" otherwise
+                         @tile loops (containers): "toi" "too" "tii" "tio" "to" "ti" "tp", see Tiles
+     h  loop-header variant for "fo"/"fi" (GoodHdrs \cup BadHdrs), "lt" for @tile loops,
+        "-" otherwise
+   The rules are evaluated on Expand(ns), where every @tile node is replaced by the two nested
+   loops it stands for.
 
    One predicate per rule of the property statement (C22); Broken(ns, ret) is the set of the
    names of the rules a kernel breaks and Valid == Broken = {}.  The rules are written from
@@ -25,8 +29,17 @@
    defined over token positions in the spec as well).                                      *)
 EXTENDS Naturals, Sequences, FiniteSets, TLC, SequencesExt
 
-Containers == {"fo", "fi", "fp", "wh", "if", "el", "bl"}
-Loops      == {"fo", "fi", "fp", "wh"}
+\* @tile loops: one for statement that the translators split into a block loop and an element
+\* loop; the two attribute arguments say what each of them is (missing = plain loop)
+Tiles      == {"toi",   \* @tile(4, @outer, @inner)
+               "too",   \* @tile(4, @outer, @outer)
+               "tii",   \* @tile(4, @inner, @inner)
+               "tio",   \* @tile(4, @inner, @outer)   (an @outer inside an @inner)
+               "to",    \* @tile(4, @outer)
+               "ti",    \* @tile(4, @inner)
+               "tp"}    \* @tile(4)
+Containers == {"fo", "fi", "fp", "wh", "if", "el", "bl"} \cup Tiles
+Loops      == {"fo", "fi", "fp", "wh"} \cup Tiles
 Okl        == {"fo", "fi"}
 SharedDecl == {"sh", "sh2", "shs", "shn"}
 ExclDecl   == {"ex", "exa"}
@@ -71,7 +84,7 @@ PrevSibling(ns, i) == PrevSiblingAtEnd(SubSeq(ns, 1, i - 1), ns[i].d)
 WellFormed(ns) ==
   /\ \A i \in 1..Len(ns) :
        /\ ns[i].k \in AllKinds /\ ns[i].d >= 1
-       /\ ns[i].h \in (IF ns[i].k \in Okl THEN Hdrs ELSE {"-"})
+       /\ ns[i].h \in (IF ns[i].k \in Okl THEN Hdrs ELSE IF ns[i].k \in Tiles THEN {"lt"} ELSE {"-"})
        /\ i = 1 => ns[i].d = 1
        /\ i > 1 => /\ ns[i].d <= ns[i - 1].d + 1
                    /\ ns[i].d = ns[i - 1].d + 1 => ns[i - 1].k \in Containers
@@ -138,7 +151,22 @@ Breaks(ns, ret, r) ==
     [] r = "WrongPlace" -> WrongPlace(ns)
     [] r = "NonArrayShared" -> NonArrayShared(ns)
     [] r = "NonConstShared" -> NonConstShared(ns)
-Broken(ns, ret) == {r \in RuleNames : Breaks(ns, ret, r)}
+\* @tile nodes stand for two nested loops: the expansion replaces node i of a tile kind by
+\* <<first loop at its depth, second loop one deeper>> and pushes everything below one level down
+TileFirst(k)  == CASE k \in {"toi", "too", "to"} -> "fo" [] k \in {"tii", "tio", "ti"} -> "fi" [] OTHER -> "fp"
+TileSecond(k) == CASE k \in {"too", "tio"} -> "fo" [] k \in {"toi", "tii"} -> "fi" [] OTHER -> "fp"
+TileShift(ns, i) == Cardinality({j \in Anc(ns, i) : ns[j].k \in Tiles})
+Expand(ns) ==
+  FlattenSeq([i \in 1..Len(ns) |->
+     LET sh == TileShift(ns, i) n == ns[i] IN
+     IF n.k \in Tiles
+     THEN <<[k |-> TileFirst(n.k),  d |-> n.d + sh,     h |-> IF TileFirst(n.k)  \in Okl THEN n.h ELSE "-"],
+            [k |-> TileSecond(n.k), d |-> n.d + sh + 1, h |-> IF TileSecond(n.k) \in Okl THEN n.h ELSE "-"]>>
+     ELSE <<[n EXCEPT !.d = n.d + sh]>>])
+\* position in Expand(ns) of (the first loop of) node i
+EPos(ns, i) == i + Cardinality({j \in 1..(i - 1) : ns[j].k \in Tiles})
+
+Broken(ns, ret) == LET e == Expand(ns) IN {r \in RuleNames : Breaks(e, ret, r)}
 Valid(ns, ret)  == Broken(ns, ret) = {}
 
 \* For BOUNDING the enumeration only (never for the oracle): the three rules about the presence
@@ -158,9 +186,25 @@ Monotone == {"InnerOutsideOuter", "OuterInsideInner", "NonVoid", "SkipInOkl", "B
 \* such structures are not generated)
 VisibleDecl(ns, i) ==
   {j \in 1..(i - 1) : ns[j].k \in Decls /\ Parent(ns, j) \in (Anc(ns, i) \cup {0})}
-UsesOK(ns) == \A i \in Idx(ns) : ns[i].k = "us" =>
-                 /\ HasAnc(ns, i, "fi")
-                 /\ \E j \in VisibleDecl(ns, i) : Parent(ns, j) # 0 /\ RightPlace(ns, j)
+UsesOK(ns) == LET e == Expand(ns) IN
+              \A i \in Idx(ns) : ns[i].k = "us" =>
+                 /\ HasAnc(e, EPos(ns, i), "fi")
+                 /\ \E j \in VisibleDecl(ns, i) : Parent(ns, j) # 0 /\ RightPlace(e, EPos(ns, j))
+\* Not generated, because the statement is silent on them:
+\*  - more than three nested @outer or three nested @inner loops (OKL has three launch dimensions);
+\*  - a @tile loop whose block loop is @outer below an @inner loop: the translators "float" such a
+\*    block loop up through single-statement parents to the enclosing @outer (2-d tiling by nested
+\*    @tile), so whether it ends up inside the @inner depends on that transformation.
+DimsOK(ns) == LET e == Expand(ns) IN
+              \A i \in Idx(e) : e[i].k \in Okl => (Count(e, i, "fo") <= 3 /\ Count(e, i, "fi") <= 3)
+TileFloatFree(ns) == LET e == Expand(ns) IN
+                     \A i \in Idx(ns) : ns[i].k \in {"toi", "too", "to"} => ~HasAnc(e, EPos(ns, i), "fi")
+\* break/continue directly inside a @tile loop one of whose two loops is plain is not generated:
+\* whether "directly in an OKL loop" refers to the written loop or to the loop it becomes is not
+\* settled by the statement
+TileSkipFree(ns) == \A i \in Idx(ns) : ns[i].k \in Skips =>
+                      LET l == EnclLoop(ns, i) IN ~(l # 0 /\ ns[l].k \in {"to", "ti", "tp"})
+Generated(ns) == UsesOK(ns) /\ TileSkipFree(ns) /\ DimsOK(ns) /\ TileFloatFree(ns)
 
 -----------------------------------------------------------------------------
 (* Rendering to OKL token spellings *)
@@ -207,6 +251,17 @@ Open(ns, i) ==
   LET k == ns[i].k IN
   CASE k \in Okl -> <<"for", "(">> \o HdrTokens(ns[i].h, Var(i), k) \o <<";", Attr(k), ")", "{">>
     [] k = "fp"  -> <<"for", "(", "int", Var(i), "=", "0", ";", Var(i), "<", "2", ";", "++", Var(i), ")", "{">>
+    [] k \in Tiles ->
+         <<"for", "(", "int", Var(i), "=", "0", ";", Var(i), "<",
+           (IF TileFirst(k) = "fo" THEN "N" ELSE "8"), ";", "++", Var(i), ";", "@tile", "(", "4">>
+         \o (CASE k = "toi" -> <<",", "@outer", ",", "@inner">>
+               [] k = "too" -> <<",", "@outer", ",", "@outer">>
+               [] k = "tii" -> <<",", "@inner", ",", "@inner">>
+               [] k = "tio" -> <<",", "@inner", ",", "@outer">>
+               [] k = "to"  -> <<",", "@outer">>
+               [] k = "ti"  -> <<",", "@inner">>
+               [] k = "tp"  -> <<>>)
+         \o <<")", ")", "{">>
     [] k = "wh"  -> <<"while", "(", "N", ">", "1", ")", "{">>
     [] k = "if"  -> <<"if", "(", "N", ">", "1", ")", "{">>
     [] k = "el"  -> <<"else", "{">>
